@@ -503,8 +503,15 @@ pub async fn gen_round(trace: &mut String, rng: &mut Prng, counts: &mut std::col
     };
     let seed_addrs: Vec<SocketAddr> = seeds.iter().filter_map(|s| s.parse().ok()).filter(|a: &SocketAddr| *a != self_addr).collect();
     shared.dests.lock().unwrap().clear();
+    // one case in three: the first send of the observed round fails (unroutable peer, oversized
+    // datagram): the round must go on to its other destinations — the dead peer, the seed
+    if rng.chance(1, 3) {
+        shared.fail_sends.lock().unwrap().push_back(true);
+        *counts.entry("round_first_send_fails".to_string()).or_insert(0) += 1;
+    }
     tokio::time::advance(interval).await;
     settle().await;
+    shared.fail_sends.lock().unwrap().clear();
     let dests: Vec<SocketAddr> = std::mem::take(&mut *shared.dests.lock().unwrap());
     let list = |tag: &str, v: &[SocketAddr]| {
         let mut s = format!(" {tag} {}", v.len());
